@@ -60,11 +60,8 @@ func (w *World) verifyFunc(pkg *PkgInfo, fn *ssa.Function, fc *FuncContract, lab
 		for _, f := range w.typeFacts(name, p.Type()) {
 			st.assume(f)
 		}
-		switch s {
-		case "Addr":
-			st.assume(app("=>", snot(app("=", name, "anil")), sand(app("<", app("oid", name), "fresh0"), app(">=", app("oid", name), "0"))))
-		case "Slice":
-			st.assume(app("=>", snot(app("=", app("sarr", name), "anil")), sand(app("<", app("oid", app("sarr", name)), "fresh0"), app(">=", app("oid", app("sarr", name)), "0"))))
+		for _, f := range w.ptrFacts(name, p.Type()) {
+			st.assume(f)
 		}
 		fr.vals[p] = v
 		fr.params[p.Name()] = v
@@ -767,4 +764,24 @@ func (w *World) forallHyps(env *Env, n *SForall) []string {
 		return nil
 	}
 	return []string{"(forall (" + strings.Join(binders, " ") + ") " + simplies(sand(guards...), sand(body...)) + ")"}
+}
+
+// ptrFacts: every pointer (slice, map, interface payload) inside a value that exists at function entry refers to an
+// object that exists at entry.
+func (w *World) ptrFacts(v string, t types.Type) []string {
+	var out []string
+	switch u := t.Underlying().(type) {
+	case *types.Pointer, *types.Map, *types.Chan:
+		out = append(out, app("=>", snot(app("=", v, "anil")), sand(app("<", app("oid", v), "fresh0"), app(">=", app("oid", v), "0"))))
+	case *types.Slice:
+		out = append(out, app("=>", snot(app("=", app("sarr", v), "anil")), sand(app("<", app("oid", app("sarr", v)), "fresh0"), app(">=", app("oid", app("sarr", v)), "0"))))
+	case *types.Interface:
+		out = append(out, app("=>", sand(snot(app("=", v, "inil")), snot(app("=", app("iref", v), "anil"))), sand(app("<", app("oid", app("iref", v)), "fresh0"), app(">=", app("oid", app("iref", v)), "0"))))
+	case *types.Struct:
+		si := w.structInfo(t)
+		for i := range si.Fields {
+			out = append(out, w.ptrFacts(selApp(si, i, v), u.Field(i).Type())...)
+		}
+	}
+	return out
 }
